@@ -35,6 +35,7 @@ pub fn issue_case(claims: &Value, marks: &[gen::TPath], decoy: Option<i64>, cnf:
 pub fn generate(thorough: bool, seed: u64, em: &mut Emitter) {
     // bounded-exhaustive first: every claims object with <= 3 (thorough: 4) nodes and every marking of it
     super::small::generate_issue(if thorough { 4 } else { 3 }, em);
+    super::c14::generate_edge_paths(seed, 40, em);
     let mut r = Rng::new(seed ^ 0xC01);
     let n = if thorough { 60_000 } else { 3_000 };
     for i in 0..n {
